@@ -41,28 +41,4 @@ theorem outcome_reach (sc : Scn) (ops : List Op) (s : Sys) (h : run (init sc) op
     OutcomeA s ∧ OutcomeB s :=
   outcome_run ops (outcomeA_init sc) (outcomeB_init sc) h
 
-/-- the configuration of a scenario as a dependency graph -/
-def Scn.graph (sc : Scn) : Jade.Ref.Graph := { n := sc.n, blockers := sc.blockers, flag := sc.flag, rc := sc.rc }
-
-def Row.outcome (r : Row) : Jade.Ref.Outcome := ⟨r.canceled, r.rc⟩
-
-theorem Row.outcome_bad (r : Row) : r.outcome.bad = r.bad := rfl
-
-/-- "job `j` has a recorded row with outcome `o`" -/
-def RowFor (s : Sys) (j : JobId) (o : Jade.Ref.Outcome) : Prop := ∃ r, OnDisk s r ∧ r.job = j ∧ r.outcome = o
-
-def StartedJ (s : Sys) (j : JobId) : Prop := j ∈ s.starts.map (·.1)
-
-/-- the local invariants are exactly the premises of the graph lemma -/
-theorem outcome_local {s : Sys} (hb : OutcomeB s) : Jade.Ref.Local s.sc.graph (RowFor s) (StartedJ s) := by
-  refine ⟨?_, ?_, ?_⟩
-  · rintro j o ⟨r, hr, rfl, rfl⟩ hc
-    exact hb.lc1 r hr hc
-  · rintro j o ⟨r, hr, rfl, rfl⟩ hc
-    obtain ⟨h1, h2, b, hbb, r', hr', hj', hbad⟩ := hb.lc2 r hr hc
-    exact ⟨h1, h2, b, hbb, r'.outcome, ⟨r', hr', hj', rfl⟩, hbad⟩
-  · intro j hj hf b hbb
-    obtain ⟨r', hr', hj', hgood⟩ := hb.lc3 j hj hf b hbb
-    exact ⟨r'.outcome, ⟨r', hr', hj', rfl⟩, hgood⟩
-
 end Jade.Sys
